@@ -29,6 +29,12 @@ func init() {
 	core.Register("secretscan", func(args []string) string {
 		tok := string(core.Unhex(args[0]))
 		dump := parseDump(args[1])
+		// args[2] (optional): number of leading context bytes of the planted text (keyword-context credentials:
+		// "HEROKU_API_KEY=<uuid>" is planted, the detector reports the uuid)
+		raw := tok
+		if len(args) > 2 {
+			raw = tok[core.Atoi(args[2]):]
+		}
 		sc := theScanner()
 		for _, db := range dump.Databases {
 			for _, t := range db.Tables {
@@ -40,7 +46,7 @@ func init() {
 						}
 						got := false
 						for _, r := range sc.ScanString(s) {
-							if string(r.Raw) == tok {
+							if string(r.Raw) == raw {
 								got = true
 							} else {
 								return "detector-hypothesis-failed:other-raw:" + hexs(s)
@@ -56,7 +62,7 @@ func init() {
 		seen := map[string]bool{}
 		var out []string
 		for _, f := range sc.ScanDumpResult(dump) {
-			if f.Raw != tok {
+			if f.Raw != raw {
 				continue
 			}
 			c := fmt.Sprintf("%s/%s/%d/%s", hexs(f.Database), hexs(f.Table), f.RowIndex, hexs(f.Column))
